@@ -50,6 +50,9 @@ func (s *State) clone() *State {
 // Unit is the verification of one function (one SMT script).
 type Unit struct {
 	eng      *Engine
+	// entry-heap closure: keys whose leaves are references, and the entry allocation watermark
+	refKeys map[string]bool
+	alloc0  T
 	name     string
 	items    []Item
 	declared map[string]bool
@@ -293,6 +296,9 @@ func (u *Unit) epochInit(key string, sort Sort, ep int) T {
 		for _, p := range u.epochParents[ep] {
 			u.emitFact(implies(p.cond, eq(T{q, sort}, u.epochInit(key, sort, p.epoch))))
 		}
+		if ep == 0 && u.refKeys[key] {
+			u.closureAxiom(key)
+		}
 		if sn, ok := u.epochSnaps[ep]; ok && len(sn.preserve) > 0 && !strings.HasPrefix(key, "IT:") {
 			old, has := sn.heap[key]
 			if !has {
@@ -304,6 +310,32 @@ func (u *Unit) epochInit(key string, sort Sort, ep int) T {
 		}
 	}
 	return T{q, sort}
+}
+
+// markRefKey records that the leaves stored under key are references. The heap
+// a function starts in is closed: every reference stored in it denotes an
+// object that already exists (root <= alloc0), so nothing in the entry heap
+// can point to an object the function allocates later.
+func (u *Unit) markRefKey(key string) {
+	if u.refKeys == nil {
+		u.refKeys = map[string]bool{}
+	}
+	if u.refKeys[key] {
+		return
+	}
+	u.refKeys[key] = true
+	if u.declared["h:H0!"+key] {
+		u.closureAxiom(key)
+	}
+}
+
+func (u *Unit) closureAxiom(key string) {
+	if u.alloc0.S == "" || u.declared["closure:"+key] {
+		return
+	}
+	u.declared["closure:"+key] = true
+	q := quoteSym("H0!" + key)
+	u.emitFact(T{fmt.Sprintf("(forall ((r!c Int)) (! (<= (root (select %s r!c)) %s) :pattern ((select %s r!c))))", q, u.alloc0.S, q), SBool})
 }
 
 func (u *Unit) newEpoch(parents []epochParent) int {
